@@ -411,7 +411,15 @@ class SpecGen:
             return False
         if k == "template":
             return "\\{" not in n["text"] and all(self._str_stable(c, seen) for c in n.get("params", {}).values())
-        if k in ("dataset", "derive", "apply", "map"):
+        if k == "dataset":
+            # the default body returns a frozen tuple; a selector body and registered overload NODES pass their value through
+            passthrough = [impl["n"] for _, impl in n.get("overloads", []) if "n" in impl]
+            if n.get("body") == "selector":
+                passthrough += list(n.get("args", {}).values())
+            return all(self._str_stable(c, seen) for c in passthrough)
+        if k == "derive":
+            return self._str_stable(n["base"], seen)
+        if k in ("apply", "map"):
             return True
         return all(self._str_stable(c, seen) for c in children(n))
 
